@@ -263,6 +263,14 @@ impl UnkHandler {
     }
 }
 
+#[cfg(vibrato_verif)]
+impl UnkHandler {
+    /// Verification hook: the stored entries.
+    pub fn verif_entries(&self) -> &[UnkEntry] {
+        &self.entries
+    }
+}
+
 #[cfg(test)]
 mod tests {
     use super::*;
